@@ -2,6 +2,6 @@
    the extracted inductive types; no Extract Constant. *)
 From Coq Require Import Extraction ExtrOcamlBasic ZArith.
 From KV.Listener Require Import Listener.
-Extraction "listener_model.ml" l_empty l_packet_input l_accept l_close_begin l_close_end l_close_session l_close
+Extraction "listener_model.ml" l_empty l_packet_input l_accept l_close_begin l_close_end l_close_session l_close l_backlog_close
   creation_event parse_conv too_short r_new r_input
   filter_init filter_step dialled_accepts same_source.
